@@ -704,6 +704,24 @@ def ttp_check(spec, root):
         r = logged_state_checks(o, spec["budget"], spec["seed"], probs, {
             "y.inst.name": inst.name, "a.name": o["algo"],
             "g.name": "GameEncoding"})
+        if r is not None and "RESULT_Y" in r[0]:
+            # the logged plan, read independently: integers separated by
+            # ';' / white space, day by day
+            import re
+            toks = [t for t in re.split(r"[;\s]+", " ".join(
+                r[0]["RESULT_Y"])) if t]
+            logged = []
+            for t in toks:      # (a human-readable table may follow)
+                try:
+                    logged.append(int(t))
+                except ValueError:
+                    break
+            want = np.array(o["_y"], dtype=np.int64).ravel().tolist()
+            if logged[:len(want)] != want:
+                probs.append(("log-RESULT_Y-is-not-the-best-plan",
+                              f"the logged plan starts with {len(logged)} "
+                              f"integers {toks[:6]}..., the best plan has "
+                              f"{len(want)} cells"))
         if r is not None and mo and "bestFs" in r[1] \
                 and [int(v) for v in r[1]["bestFs"].split(";")] != o["fs"]:
             probs.append(("log-bestFs", f"log bestFs {r[1]['bestFs']} vs "
@@ -1359,6 +1377,12 @@ def product(ctx):
             jobs.append([{"family": "ttp", "setup": su, "inst": inst,
                           "seed": s, "budget": b}
                          for s in seeds_for(inst) for b in budgets])
+    # one tournament with more than 1000 plan cells (24 teams, 46 days):
+    # the logged plan must still be loadable
+    jobs.append([{"family": "ttp", "setup": su, "inst": "circ24",
+                  "seed": s, "budget": budgets[0]}
+                 for su in ("rls_rs.rls", "mo.rls")
+                 for s in list(seeds_for("circ24"))[:1]])
     for inst in (QAP_Q if q else QAP_T):
         jobs.append([{"family": "qap", "setup": su, "inst": inst,
                       "seed": s, "budget": b}
